@@ -78,6 +78,7 @@ PROPS = {
     'C06': {
         'level': 'proof',
         'units': ['executor'],
+        'bounded': ['masm_lowering'],
         'kani': [],
         'trusted_base': [T_FELT, T_TOOLS, 'A-decoder: Decoder method contracts (one row per call, block-stack push/pop) assumed in unit executor', 'hub control-flow rules spec/control_sem.rs are the semantics definition (axioms)'],
         'not_decided': ['text->AST parser', 'AST->MAST lowering (compile_body, combine_blocks): closures/iterators outside Verus reach'],
